@@ -84,7 +84,9 @@ def run(ctx):
         key = "reuse|%s|%s|%s" % (r["pooled"], r["k"], r["catch"])
         ctx.nontrivial.add(key)
         if not r["ok"]:
-            ctx.violation(key, "one Invoker (pooled=%s) invoked three times, the function loops in call %d (callback inside try: %s): %s\n%s" % (r["pooled"], r["k"], r["catch"], r["what"], r["src"]),
+            what = ("one Invoker (pooled=%s) invoked three times, the function loops in call %s (callback inside try: %s): %s\n%s" if r["catch"] != "panic" else
+                    "Abort while a Go function is about to panic (recovery on; handler %s; in %s%s): %s\n%s") % (r["pooled"], r["k"], "" if r["catch"] == "panic" else r["catch"], r["what"], r["src"])
+            ctx.violation(key, what,
                           dict(config="reuse", pooled=r["pooled"], k=r["k"], what=r["what"], sched=[]))
     if nreuse == 0:
         raise vlib.Inconclusive("no reuse histories ran")
